@@ -421,11 +421,15 @@ func cmdCheck(args []string) int {
 			seen[o.Name] = true
 			if o.Kind == "cover" {
 				covers++
-				if o.Status == "discharged" {
+				switch o.Status {
+				case "discharged":
 					coversOK++
-				} else {
+				case "failed":
+					// unsat: the function's preconditions / assumed contracts are contradictory, every proof of it is vacuous
 					fmt.Printf("gocv: TOOL ERROR vacuity guard failed: %s (%s)\n", o.Name, o.Output)
 					toolError = true
+				default:
+					fmt.Printf("gocv: note: vacuity guard undecided: %s (%s)\n", o.Name, o.Output)
 				}
 				newLock[o.Name] = lockEntry{Status: o.Status, Solver: o.Solver, Time: o.Time}
 				continue
